@@ -17,7 +17,7 @@ RULE = ("Metamorphic / differential: a decomposition-independent logical program
         "drawn from: k=1..8 (quick: mostly 1..4) with different decompositions of every box, nc_header_align_size / nc_var_align_size / "
         "nc_record_align_size, nc_ibuf_size in {1, 64, default}, nc_in_place_swap in {auto, enable, disable} with request sizes on both "
         "sides of the 4096-byte threshold, nc_hash_size_*, nc_header_read_chunk_size, romio_no_indep_rw, nc_num_aggrs_per_node 0..k, "
-        "safe mode, hints through MPI_Info or PNETCDF_HINTS.  Oracle: per logical request the return codes agree, reassembled read "
+        "safe mode, hints through MPI_Info or PNETCDF_HINTS (optionally with a conflicting MPI_Info that must lose).  Oracle: per logical request the return codes agree, reassembled read "
         "results are equal, the two closed files decode (independent decoder) to the same logical content, both runs also agree with "
         "the reference model, variable offsets satisfy the alignment each configuration reports, and ncmpi_inq_file_info reports for "
         "every PnetCDF hint we set the value we set.  Non-trivial = A and B differ in k or in aggregation / ibuf / swap / collective "
@@ -53,7 +53,10 @@ def config(draw, kmax=4):
         h["nc_num_aggrs_per_node"] = str(draw(st.integers(0, k)))
     # who posts the nonblocking writes: every rank its part (None) or one rank all of them (the others reach the wait empty-handed)
     owner = draw(st.sampled_from([None, None, 0, 0, k - 1, draw(st.integers(0, k - 1))]))
-    return {"k": k, "hints": h, "via_env": G.chance(draw, 30), "safe": G.chance(draw, 25), "dseed": draw(st.integers(0, 10 ** 6)), "iput_owner": owner}
+    via_env = G.chance(draw, 30)
+    # with PNETCDF_HINTS: sometimes an MPI_Info carrying *other* values for the same hints is passed too (the environment wins)
+    return {"k": k, "hints": h, "via_env": via_env, "decoy": via_env and G.chance(draw, 40), "safe": G.chance(draw, 25),
+            "dseed": draw(st.integers(0, 10 ** 6)), "iput_owner": owner}
 
 
 @st.composite
@@ -194,6 +197,17 @@ def part_values(step, part_idx, fm, vi, rq, vclass):
     return allvals[[lut[tuple(ix)] for ix in part_idx.tolist()]]
 
 
+def _other(values):
+    return lambda v, k: str([x for x in values if str(x) != v][0])
+
+
+# a different legal value for the same hint (what the MPI_Info says when PNETCDF_HINTS says something else)
+DECOY = {"nc_var_align_size": _other([64, 8]), "nc_header_align_size": _other([64, 1024]), "nc_record_align_size": _other([512, 8]),
+         "nc_ibuf_size": _other([64, 100000]), "nc_in_place_swap": _other(["enable", "disable"]),
+         "nc_hash_size_dim": _other([7, 64]), "nc_hash_size_var": _other([7, 64]), "nc_hash_size_gattr": _other([7, 64]), "nc_hash_size_vattr": _other([7, 64]),
+         "nc_num_aggrs_per_node": lambda v, k: str((int(v) + 1) % (k + 1))}
+
+
 def build(case, cfg):
     sch = case["schema"]
     k = cfg["k"]
@@ -204,6 +218,9 @@ def build(case, cfg):
     if hints:
         if cfg["via_env"]:
             p.s.op("env", **{"e__PNETCDF_HINTS": hx(";".join("%s=%s" % kv for kv in sorted(hints.items())))})
+            if cfg.get("decoy"):
+                p.s.op("info", i="i1", **{"h__" + a: hx(DECOY[a](b, k)) for a, b in sorted(hints.items()) if a in DECOY})
+                info = "i1"
         else:
             p.s.op("info", i="i1", **{"h__" + a: hx(b) for a, b in sorted(hints.items())})
             info = "i1"
@@ -444,6 +461,8 @@ def run_case(ctx, case):
                 labels.add("%s=%s" % (h, val if h != "nc_num_aggrs_per_node" else ("0" if val == "0" else "all" if int(val) == c_["k"] else "some")))
         if c_["via_env"] and c_["hints"]:
             labels.add("via_PNETCDF_HINTS")
+            if c_.get("decoy"):
+                labels.add("PNETCDF_HINTS_overrides_conflicting_MPI_Info")
     for nm in ("A", "B"):
         if nm in runs and runs[nm][1].get("solo_iput", 0) >= 2 and case[nm]["k"] > 1:
             labels.add("several_iputs_pending_on_one_rank_only")
